@@ -291,6 +291,16 @@ class StmtMixin:
         tn = bound.target_node
         if not isinstance(tn, ast.Name):
             raise OutOfReach(f'.{name} on a collection that is not a local name (line {ln})')
+        if isinstance(coll, VStack):
+            S_ = ctx.sorts.stack_sort(coll.elem_kind)
+            if name == 'append':
+                path.env[tn.id] = VStack(S_.SCons(self.coerce(args[0], coll.elem_kind).t, coll.t), coll.elem_kind)
+                return VNone()
+            if name == 'pop' and not args:
+                ctx.oblige(path, 'defined', 'pop from empty list (IndexError)', S_.is_SCons(coll.t), ln)
+                path.env[tn.id] = VStack(S_.below(coll.t), coll.elem_kind)
+                return ctx.val_of(coll.elem_kind, S_.top(coll.t))
+            raise OutOfReach(f'.{name} on a list declared as a stack (only append / pop() keep the discipline)')
         if getattr(coll, 'escaped', False):
             raise OutOfReach('mutation of a collection that escaped to the heap')
         var = tn.id
@@ -727,6 +737,10 @@ class StmtMixin:
         for a in sorted(assigned):
             if a in path.env and not isinstance(path.env[a], (MaybeUnbound,)) and path.env[a] is not UNBOUND:
                 cur = path.env[a]
+                hint_ = (ctx.cur_contract.kinds or {}).get(a) if ctx.cur_contract is not None else None
+                if hint_ and hint_.startswith('Stack[') and isinstance(cur, (VList, VTuple)):
+                    cur = self.coerce(cur, self.ann_kind(ast.parse(hint_, mode='eval').body, None))
+                    path.env[a] = cur
                 if isinstance(cur, VList) and not cur.items and cur.elem_kind is None:
                     hint = (ctx.cur_contract.kinds or {}).get(a)
                     if hint is None:
